@@ -266,23 +266,40 @@ pub proof fn lemma_align_up(a: u64, align: u64)
 //@ fn src/addr.rs | impl VirtAddr | is_aligned
 //@ obligation C06 C06.VirtAddr_is_aligned.iff_multiple
 //@ A
-    requires <U as IntoSpec<u64>>::obeys_into_spec(), pow2_u64(into_u64(align)), wf_v(self), into_u64(align) <= 0x8000_0000_0000,
+    requires <U as IntoSpec<u64>>::obeys_into_spec(), pow2_u64(into_u64(align)), wf_v(self),
     ensures r == is_mult(self.0 as int, into_u64(align) as int),
 //@ B
-    requires <U as IntoSpec<u64>>::obeys_into_spec(), wf_v(self), into_u64(align) <= 0x8000_0000_0000,
+    requires <U as IntoSpec<u64>>::obeys_into_spec(), wf_v(self),
     ensures pow2_u64(into_u64(align)), r == is_mult(self.0 as int, into_u64(align) as int),
 //@ end
 
 //@ fn src/addr.rs | impl VirtAddr | is_aligned_u64
 //@ obligation C06 C06.VirtAddr_is_aligned_u64.iff_multiple
 //@ A
-    requires pow2_u64(align), wf_v(self), align <= 0x8000_0000_0000,
+    // every power-of-two alignment (audit item 22): above 2^47 the only canonical multiple is 0
+    requires pow2_u64(align), wf_v(self),
     ensures r == is_mult(self.0 as int, align as int),
 //@ B
-    requires wf_v(self), align <= 0x8000_0000_0000,
+    requires wf_v(self),
     ensures pow2_u64(align), r == is_mult(self.0 as int, align as int),
 //@ proof
-        if pow2_u64(align) { lemma_virt_align_down(self.0, align); lemma_align_down(self.0, align); }
+        if pow2_u64(align) {
+            lemma_align_down(self.0, align);
+            if align <= 0x8000_0000_0000 { lemma_virt_align_down(self.0, align); } else { lemma_virt_is_aligned_big(self.0, align); }
+        }
+//@ end
+
+//@ verbatim
+pub proof fn lemma_virt_is_aligned_big(a: u64, align: u64)
+    requires pow2_u64(align), canonical(a), align > 0x8000_0000_0000
+    ensures (sext48(align_down_spec(a, align)) == a) <==> (align_down_spec(a, align) == a)
+{
+    lemma_pow2_is_shift(align);
+    let k: u64 = choose|k: u64| k < 64 && align == (1u64 << k);
+    assert(k < 64 && (1u64 << k) > 0x8000_0000_0000 ==> k >= 48) by (bit_vector);
+    assert(48 <= k && k < 64 && canonical(a) ==>
+        ((sext48(a & !sub(1u64 << k, 1)) == a) <==> ((a & !sub(1u64 << k, 1)) == a))) by (bit_vector);
+}
 //@ end
 
 //@ verbatim
